@@ -72,14 +72,28 @@ def _strip_line(line, lineno, probes):
         line = line[:start] + expr + line[j:]
 
 
+_VST = re.compile(r'VST\((\d+), (\w+)\)')
+
+
+def _strip_vst(line, lineno, probes):
+    """VST(id, name) -> name (container-size probe on a container token)"""
+    while True:
+        m = _VST.search(line)
+        if not m:
+            return line
+        probes[int(m.group(1))] = (lineno, m.start() + 1, m.group(2), 'container')
+        line = line[:m.start()] + m.group(2) + line[m.end():]
+
+
 def from_annotated(text, lang='c'):
     lines = text.split('\n')
     probes = {}
     plain = []
     inst = []
     for n, line in enumerate(lines, 1):
-        inst.append(_VPT.sub(lambda m: 'VP(%s, ' % m.group(1), line))
-        plain.append(_strip_line(line, n, probes))
+        il = _VPT.sub(lambda m: 'VP(%s, ' % m.group(1), line)
+        inst.append(_VST.sub(lambda m: 'VSZ(%s, %s)' % (m.group(1), m.group(2)), il))
+        plain.append(_strip_vst(_strip_line(line, n, probes), n, probes))
     inst[0] = '#include "trace.h"'
     itext = '\n'.join(inst).replace('/*FINISH*/', 'vp_finish();')
     return Program('\n'.join(plain), itext, probes, [], [], {}, lang)
